@@ -207,6 +207,55 @@ def h_src(ctx, scenario, code):
     ctx.end("infeasible")
 
 
+OPEN_CONDS = [CC.FILE_SIZE_ERROR, CC.FILE_CHECKSUM_FAILURE, CC.CHECK_LIMIT_REACHED, CC.NAK_LIMIT_REACHED,
+              CC.POSITIVE_ACK_LIMIT_REACHED, CC.FILESTORE_REJECTION]
+
+
+def h_open(ctx, N, mode, prefix):
+    """arbitrary event sequences with one table entry overridden: whatever fault is declared anywhere,
+    the callback kind is the table entry, it fires once per call and condition, and abandon is final"""
+    w = World(ctx, injective=True, nonzero_source=True)
+    w.witness = ctx.int("x", 0, hdst.OMAX)
+    m = ACK if mode == "ack" else UNACK
+    cond = ctx.pick("cond", OPEN_CONDS)
+    code = ctx.pick("code", ["ignore", "cancel", "abandon"])
+    sc = DstScenario(ctx, w, mode=m, cktype=ChecksumType.CRC_32, closure=bool(ctx.choice("closure", 2)),
+                     rig_kwargs={"fault_table": {cond: CODES[code]}, "check_limit": 1, "nak_limit": 1,
+                                 "ack_limit": 1, "immediate_nak": True})
+    table = sc.rig.fh
+    default_kind = {FaultHandlerCode.IGNORE_ERROR: "ignore", FaultHandlerCode.NOTICE_OF_CANCELLATION: "cancel",
+                    FaultHandlerCode.ABANDON_TRANSACTION: "abandon", FaultHandlerCode.NOTICE_OF_SUSPENSION: "suspend"}
+    for o in sc.run_prefix(prefix):
+        hdst.end_if_other_property(ctx, o)
+    alphabet = ["MD", "FDX", "EOF", "TICK", "CANCEL"] + (["ACKFIN"] if m == ACK else [])
+    cancel_exchange = False
+    for i in range(N):
+        was_tid = sc.rig.h.transaction_id
+        o = sc.step(alphabet)
+        hdst.end_if_other_property(ctx, o)
+        seen = {}
+        for f in o.faults:
+            want = default_kind[table.get_fault_handler(f[2])]
+            ctx.covered(f"open:{f[2].name}:{f[0]}")
+            if cancel_exchange and f[0] == "abandon":
+                continue  # fault during the Finished(cancel) exchange: abandonment is required (C04)
+            ctx.prop("callback_kind_is_table_entry", f[0] == want,
+                     lambda: {"sig": f"open: {f[2].name} configured {want}, callback {f[0]}"})
+            ctx.prop("callback_transaction_id", f[1] == was_tid, lambda: {"sig": f"open: {f[2].name} id {f[1]}"})
+            if f[0] == "abandon":
+                # PDUs queued earlier in the same call (before the fault) are not the abandonment's doing
+                ctx.prop("abandon_goes_idle", sc.rig.idle and not any(e[0] == "finished" for e in o.ind)
+                         and not any(rigs.pdu_kind(p) == "FIN" for p in o.pdus),
+                         lambda: {"sig": f"open: {f[2].name}/abandon not silent"})
+        for e in o.ind:
+            ctx.prop("indication_has_transaction_id", e[1] is not None,
+                     lambda: {"sig": f"open: {e[0]} indication without transaction id"})
+        if any(rigs.pdu_kind(p) == "FIN" and p.condition_code != CC.NO_ERROR for p in o.pdus):
+            cancel_exchange = True
+        if sc.rig.idle:
+            cancel_exchange = False
+
+
 def set_handler_refuses():
     """configuration API: conditions outside the table are refused (concrete loop over all codes)"""
     class F(DefaultFaultHandlerBase):
@@ -251,6 +300,12 @@ def plan(tier):
                      "nak_limit": "NAK_LIMIT_REACHED", "ack_limit": "POSITIVE_ACK_LIMIT_REACHED"}[sc]
             specs.append(Spec(f"dest/{sc}/{code}", "vf.harness.c14:h_dest", {"scenario": sc, "code": code},
                               twin_share=0.3, obligations=[f"declared:{cname}:{code}"]))
+    q = tier == "quick"
+    for mode, pre, n in (("ack", "none", 3 if q else 4), ("ack", "delivered", 2 if q else 3),
+                         ("ack", "eof_missing", 2 if q else 3), ("unack", "none", 3 if q else 4),
+                         ("unack", "eof_missing", 2 if q else 3)):
+        specs.append(Spec(f"dest-open/{mode}/after-{pre}/N={n}", "vf.harness.c14:h_open",
+                          {"N": n, "mode": mode, "prefix": pre}, twin_share=0.02))
     for sc in ("ack_limit", "check_limit"):
         for code in CODES:
             specs.append(Spec(f"src/{sc}/{code}", "vf.harness.c14:h_src", {"scenario": sc, "code": code},
@@ -259,7 +314,7 @@ def plan(tier):
 
 
 BOUNDS = {
-    "quick": "8 receiver scenarios (file size error after and at EOF, checksum failure unacknowledged/acknowledged, filestore rejection at file creation, check limit, NAK limit, positive ACK limit of the Finished PDU) and 2 sender scenarios (positive ACK limit of the EOF, check limit with closure) x handler code {ignore, cancel, abandon}; file size, limits in [1,3], clock, mode/closure (where free) symbolic; set_handler over all condition x handler code pairs",
+    "quick": "8 receiver scenarios (file size error after and at EOF, checksum failure unacknowledged/acknowledged, filestore rejection at file creation, check limit, NAK limit, positive ACK limit of the Finished PDU) and 2 sender scenarios (positive ACK limit of the EOF, check limit with closure) x handler code {ignore, cancel, abandon}; plus open receiver runs: one table entry overridden (6 conditions x 3 codes), limits 1, canonical prefix (none / delivered / EOF with missing data) followed by every sequence of N=3 (no prefix) / N=2 events incl. possibly corrupted File Data; file size, limits in [1,3], clock, mode/closure (where free) symbolic; set_handler over all condition x handler code pairs",
     "thorough": "same space; adds the cross-solver pass",
 }
 OUTSIDE = "suspension (unimplemented in the library); faults reached from histories other than the scripted scenarios; the cancel request, which the handlers do not route through the fault handler table; faults declared while an EOF(cancel) exchange is in progress (C04)"
